@@ -62,7 +62,7 @@ func (d *Dialer) Execute() {
 		le = le.WithField("remote-peer", d.peerID.String())
 	}
 	le.Debug("quic: dialing peer")
-	rconn, _, err := d.t.dialFn(ctx, d.addr)
+	rconn, _, err := d.t.dialFn(ctx, d.peerID, d.addr)
 	if err != nil {
 		le.WithError(err).Warn("quic: failed to dial peer")
 		d.result.SetResult(nil, err)
